@@ -128,14 +128,34 @@ def main():
         # a recording callable, to see what the wrapped function receives
         seen = []
 
-        def rec(a):
-            seen.append(a)
-            return a
+        # ... through every kind of parameter (the object is localised by different generated code for each)
+        pkind = ('flex', 'kwonly', 'posonly', 'varargs', 'varkw', 'flex-by-keyword')[r % 6]
+        if pkind == 'kwonly':
+            def rec(*, a):
+                seen.append(a)
+                return a
+        elif pkind == 'posonly':
+            def rec(a, /):
+                seen.append(a)
+                return a
+        elif pkind == 'varargs':
+            def rec(*a):
+                seen.append(a[0])
+                return a[0]
+        elif pkind == 'varkw':
+            def rec(**a):
+                seen.append(a['k'])
+                return a['k']
+        else:
+            def rec(a):
+                seen.append(a)
+                return a
         rec.__annotations__ = {'a': hint, 'return': hint}
         try:
             frec = beartype.beartype(conf=subj.conf)(rec)
         except Exception:
             frec = None
+        W.count('recorder_parameter_kind.' + pkind)
         for ep in engine.ENTRY_POINTS + ('recorder',):
             before = snap(x)
             spies.reset()
@@ -145,7 +165,12 @@ def main():
                 seen.clear()
                 with draws.armed(r):
                     try:
-                        frec(x)
+                        if pkind in ('kwonly', 'flex-by-keyword'):
+                            frec(a=x)
+                        elif pkind == 'varkw':
+                            frec(k=x)
+                        else:
+                            frec(x)
                     except Exception:
                         pass
                 if seen and seen[0] is not x:
